@@ -849,7 +849,8 @@ def gen_utree(rng, n, depth, nitems):
     for _ in range(nitems):
         if depth > 0 and rng.random() < 0.3:
             body = gen_utree(rng, n, depth - 1, int(rng.integers(1, 5)))
-            blk = {"t": "B", "body": body, "reps": int(rng.choice([1, 1, 2, 2, 3, -1, -2, 0])), "ids": None, "use_ids": None, "qmap": {}, "kmap": {}}
+            blk = {"t": "B", "body": body, "reps": int(rng.choice([1, 1, 2, 2, 3, -1, -2, 0] if B._is_unitary_items(body) else [1, 1, 2, 2, 3, 0])),
+                   "ids": None, "use_ids": None, "qmap": {}, "kmap": {}}
             if rng.random() < 0.35:
                 perm = [int(x) for x in rng.permutation(n)]
                 blk["qmap"] = {w: perm[w] for w in range(n) if perm[w] != w}
@@ -884,7 +885,8 @@ def sec_deep(ctx, rng, case_no):
         n = int(rng.integers(2, 5))
         items = gen_utree(rng, n, int(rng.integers(1, 3)), int(rng.integers(3, 9)))
         if not X.has_block(items):
-            items.append({"t": "B", "body": X.gen_unitary(rng, n, int(rng.integers(2, 6))), "reps": int(rng.choice([1, 2, -1])), "ids": None,
+            body_ = X.gen_unitary(rng, n, int(rng.integers(2, 6)))
+            items.append({"t": "B", "body": body_, "reps": int(rng.choice([1, 2, -1] if B._is_unitary_items(body_) else [1, 2])), "ids": None,
                           "use_ids": None, "qmap": {}, "kmap": {}})
     if measured:
         # tags only at top level: a TaggedOperation inside a sub-circuit with repetition ids is not rescoped by Cirq
